@@ -97,7 +97,7 @@ PROPS = {
         'assumptions': ['Question::test is a deterministic predicate of (question, label) (uninterpreted test_spec)',
                         'Model::find_tree_index == first tree whose state matches (Kani-checked, bounded trees <= 3)'],
         'trusted_base': [],
-        'not_decided': ['HTS wildcard semantics of question matching', 'split_sections / header serde / window rows / tree text -> node table (parse_node; convert_tree beyond one-node trees)', 'f32 little-endian PDF block offsets in parse_model', 'options -> Condition (load_model option loop)'],
+        'not_decided': ['HTS wildcard semantics of question matching', 'split_sections / header serde / window rows / tree text -> node table (parse_node; convert_tree beyond one-node trees)', 'f32 little-endian PDF block offsets in parse_model'],
     },
     'C18': {
         'technique': 'Kani harnesses (built-in panic / overflow / index checks) on the loader\'s own slicing, integer accumulation and the PDF-length expressions of parse_data_section (cut from its text every run)',
@@ -106,7 +106,7 @@ PROPS = {
         'verus': [],
         'assumptions': ['nom 8, serde, jlabel-question, regex never panic and never loop on empty matches (not verified)'],
         'trusted_base': [],
-        'not_decided': ['whole-file quantifier (any byte sequence)', 'allocation bounds', 'convert_tree (question / node lookups)', 'deserialize_hashmap key slicing'],
+        'not_decided': ['whole-file quantifier (any byte sequence)', 'allocation bounds', 'convert_tree beyond one-node trees', 'key slicing beyond 5-byte ASCII keys'],
     },
     'C13': {
         'technique': 'Verus contracts on the extracted text of LineSpectralPairs::{lsp2lpc, lsp2mgc}, Generalized::{gnorm, ignorm}, MelGeneralizedCepstrum::{gc2gc, mgc2mgc} and MelGeneralizedLogSpectrumApproximation::{df, dff} (IEEE ops, cos, exp, ln, powf uninterpreted); the two iterator-chain holes and an API-level polynomial-product harness checked by Kani',
@@ -122,7 +122,7 @@ PROPS = {
         'level_note': 'mean-level claim; the trajectory-level shift after MLPG (exact arithmetic only) is not decided; in Verus IEEE ops and f64::clamp are uninterpreted (values pinned by Kani on 1-2 states with h from 6 constants)',
         'verus': ['engine', 'halftone'],
         'assumptions': [], 'trusted_base': [],
-        'not_decided': ['log-F0 of every voiced FRAME shifts by h*ln2/12 after MLPG (holds in exact arithmetic only)', 'HALF_TONE is the double nearest ln2/12 (ground computation, not a proof)'],
+        'not_decided': ['log-F0 of every voiced FRAME shifts by h*ln2/12 after MLPG (holds in exact arithmetic only)', 'clamp inactive / active distinction at trajectory level'],
     },
     'C01': {
         'scans': ['vocoder_no_hidden_state'],
@@ -156,7 +156,7 @@ PROPS = {
         'level_note': 'PARTIAL: "variance within 20% of the target for >= 100 eligible frames" and monotonicity in the weight are NOT decided (empirical convergence of a damped Newton iteration); next_step and calc_hmmobj_derivative are proved (unit gvstep) to be the per-frame update with the frame\'s OWN switch and the band product g = R c / objective of HTS_PStream_gv_parmgen; calc_gv and conv_gv (iterator chains) are checked bounded on exact concrete values (K-gvnum: statistics over, and rescaling of, the eligible frames only)',
         'verus': ['engine', 'gvpar', 'gvstep'],
         'assumptions': ['frame counts whose products win_size*T and T*T fit in usize (precondition of next_step / calc_hmmobj_derivative)'], 'trusted_base': [],
-        'not_decided': ['variance within 20% of gv_weight x GV mean', 'monotone growth with the weight', 'conv_gv / calc_gv beyond the bounded concrete check', 'step-size schedule of parmgen'],
+        'not_decided': ['variance within 20% of gv_weight x GV mean', 'monotone growth with the weight', 'conv_gv / calc_gv beyond the bounded concrete check (5 frames)', 'step-size schedule of parmgen'],
     },
     'C14': {
         'technique': 'Verus contracts on the extracted text of MelCepstrum::postfilter_mcp (b-domain, floats and b2en uninterpreted), CepstrumT::{mc2b, freqt, c2ir}, CoefficientsT::{b2mc, b2en} and Engine::generator; Kani harnesses for the no-op cases; native contract on Condition::set_beta',
@@ -172,7 +172,7 @@ PROPS = {
         'level_note': 'PARTIAL: the dB round trip ln(exp(x)) ~ x is NOT decided (libm); Verus states volume == exp(v*DB), get_volume == ln(volume)/DB, and (unit vocoder) that every sample written by Vocoder::synthesize is some filter output times the stored volume, with exp/ln/IEEE ops uninterpreted',
         'verus': ['engine', 'cond', 'vocoder'],
         'assumptions': ['exp is a deterministic positive function (stub)'], 'trusted_base': [],
-        'not_decided': ['get_volume(set_volume(v)) ~ v (libm round trip)', 'DB is the double nearest ln10/20', 'the exact filter output x that is multiplied by the volume (only "some x times volume" is proved)'],
+        'not_decided': ['get_volume(set_volume(v)) ~ v (libm round trip)', 'the exact filter output x that is multiplied by the volume (only "some x times volume" is proved)'],
     },
     'C20': {
         'technique': 'Kani native function contracts (requires/ensures/modifies + proof_for_contract) and loop-free full-domain harnesses on Condition setters/getters',
